@@ -228,6 +228,9 @@ struct Exact
 };
 
 static std::unique_ptr<DnsCache> g_cache;
+// measured branch counters (printed by `counters`; evidence only, not part of the lockstep)
+static unsigned long long g_posHits = 0, g_negHits = 0, g_misses = 0, g_evictGet = 0, g_evictPurge = 0, g_soaTyped = 0, g_soaFallback = 0, g_soaNone = 0,
+                          g_parseVec = 0, g_query1 = 0, g_queryDefault = 0;
 
 static void waitParked()
 {
@@ -286,9 +289,30 @@ static std::string stepInner(const std::vector<std::string>& t, bool& encoding)
     Exact e(m);
     return showResult(DnsMessage::parse(e.p, e.n));
   }
+  if (t.size() == 2 && t[0] == "parsev")
+  {
+    // the public wrapper parse(const std::vector<uint8_t>&): the vector's capacity exceeds its size (spare bytes poisoned by
+    // _GLIBCXX_SANITIZE_VECTOR), so a wrapper that hands capacity() instead of size() to the parser is seen
+    Bytes m;
+    if (!vh::ofHex(t[1], m)) return "bad-op";
+    std::vector<std::uint8_t> v;
+    v.reserve(m.size() + 64);
+    v.assign(m.begin(), m.end());
+    ++g_parseVec;
+    return showResult(DnsMessage::parse(v));
+  }
+  if (t.size() == 1 && t[0] == "counters")
+  {
+    std::ostringstream o;
+    o << "counters pos_hits=" << g_posHits << " neg_hits=" << g_negHits << " misses=" << g_misses << " evicted_by_get=" << g_evictGet << " evicted_by_purge=" << g_evictPurge
+      << " negttl_typed_soa=" << g_soaTyped << " negttl_soa_fallback=" << g_soaFallback << " negttl_no_soa=" << g_soaNone << " parse_vector=" << g_parseVec
+      << " buildQuery_one=" << g_query1 << " buildQuery_default_rd=" << g_queryDefault;
+    return o.str();
+  }
   if (t.size() == 3 && t[0] == "timed")
   {
-    // cost monitor (not part of the lockstep): best-of-N wall time of DnsMessage::parse on one message, in microseconds
+    // cost monitor (not part of the lockstep): best-of-N CPU time of this thread (CLOCK_THREAD_CPUTIME_ID: independent of the load of
+    // the host) spent in DnsMessage::parse on one message, in microseconds
     Bytes m;
     unsigned long long reps;
     if (!vh::ofHex(t[2], m) || !vh::parseNat(t[1], reps) || reps == 0 || reps > 20) return "bad-op";
@@ -298,10 +322,10 @@ static std::string stepInner(const std::vector<std::string>& t, bool& encoding)
     for (unsigned long long i = 0; i < reps; ++i)
     {
       struct timespec a, b;
-      clock_gettime(CLOCK_REALTIME, &a);
+      clock_gettime(CLOCK_THREAD_CPUTIME_ID, &a);
       try { auto r = DnsMessage::parse(e.p, e.n); verdict = "ok " + std::to_string(r.answers.size()); }
       catch (const DnsParseException& ex) { verdict = "err " + errKind(ex.what(), false); }
-      clock_gettime(CLOCK_REALTIME, &b);
+      clock_gettime(CLOCK_THREAD_CPUTIME_ID, &b);
       long long us = (b.tv_sec - a.tv_sec) * 1000000LL + (b.tv_nsec - a.tv_nsec) / 1000;
       if (best < 0 || us < best) best = us;
     }
@@ -315,6 +339,20 @@ static std::string stepInner(const std::vector<std::string>& t, bool& encoding)
     Exact e(m);
     std::string name;
     std::size_t nx = DnsMessage::decodeName(e.p, off, e.n, name);
+    return "ok " + hx(name) + " " + std::to_string(nx);
+  }
+  if (t.size() == 4 && t[0] == "namev")
+  {
+    // the public decodeNameWithLoopDetection with a caller-supplied (possibly non-empty) visited set
+    Bytes m;
+    unsigned long long off;
+    std::vector<std::uint32_t> vs;
+    if (!vh::ofHex(t[1], m) || !vh::parseNat(t[2], off) || !parseTtls(t[3], vs)) return "bad-op";
+    std::unordered_set<std::uint16_t> visited;
+    for (auto v : vs) { if (v > 65535) return "bad-op"; visited.insert(static_cast<std::uint16_t>(v)); }
+    Exact e(m);
+    std::string name;
+    std::size_t nx = DnsMessage::decodeNameWithLoopDetection(e.p, off, e.n, name, visited);
     return "ok " + hx(name) + " " + std::to_string(nx);
   }
   if (t.size() == 5 && t[0] == "rdname")
@@ -357,6 +395,32 @@ static std::string stepInner(const std::vector<std::string>& t, bool& encoding)
     }
     return vh::toHex(w);
   }
+  if (t.size() == 5 && t[0] == "query1")
+  {
+    // buildQuery(const DnsQuestion&, id): one question, RD set
+    unsigned long long id;
+    DnsQuestion q;
+    if (!vh::parseNat(t[1], id) || id == 0 || id > 65535 || !mkQuestion(t[2], t[3], t[4], q)) return "bad-op";
+    encoding = true;
+    ++g_query1;
+    return vh::toHex(DnsMessage::buildQuery(q, static_cast<std::uint16_t>(id)));
+  }
+  if (t.size() >= 2 && t[0] == "queryd" && (t.size() - 2) % 3 == 0)
+  {
+    // buildQuery(const std::vector<DnsQuestion>&, id): RD set by default
+    unsigned long long id;
+    if (!vh::parseNat(t[1], id) || id == 0 || id > 65535) return "bad-op";
+    std::vector<DnsQuestion> qs;
+    for (std::size_t i = 2; i < t.size(); i += 3)
+    {
+      DnsQuestion q;
+      if (!mkQuestion(t[i], t[i + 1], t[i + 2], q)) return "bad-op";
+      qs.push_back(q);
+    }
+    encoding = true;
+    ++g_queryDefault;
+    return vh::toHex(DnsMessage::buildQuery(qs, static_cast<std::uint16_t>(id)));
+  }
   if (t.size() >= 2 && t[0] == "c")
   {
     const std::string& op = t[1];
@@ -390,7 +454,13 @@ static std::string stepInner(const std::vector<std::string>& t, bool& encoding)
       Exact e(m);
       DnsResult r = DnsMessage::parse(e.p, e.n);
       if (op == "putmsg") g_cache->put(q, r);
-      else g_cache->putNegative(q, r, std::string());
+      else
+      {
+        bool rawSoa = false;
+        for (auto& rr : r.authority) if (rr.type == DnsType::SOA) rawSoa = true;
+        if (!r.soa_records.empty()) ++g_soaTyped; else if (rawSoa) ++g_soaFallback; else ++g_soaNone;
+        g_cache->putNegative(q, r, std::string());
+      }
       return "ok" + cacheTail();
     }
     if (op == "putneg" && t.size() == 8 && mkQuestion(t[2], t[3], t[4], q))
@@ -404,7 +474,12 @@ static std::string stepInner(const std::vector<std::string>& t, bool& encoding)
     if (op == "get" && t.size() == 5 && mkQuestion(t[2], t[3], t[4], q))
     {
       DnsResult out;
+      auto before = g_cache->getStats();
+      std::size_t nBefore = g_cache->cache_->size();
       bool hit = g_cache->get(q, out);
+      auto after = g_cache->getStats();
+      if (!hit) ++g_misses; else if (after.negative_hits > before.negative_hits) ++g_negHits; else ++g_posHits;
+      if (g_cache->cache_->size() < nBefore) ++g_evictGet;
       return (hit ? "hit " + std::to_string(out.header.id) + " " + std::to_string(out.answers.size()) : std::string("miss")) + cacheTail();
     }
     if (op == "remove" && t.size() == 5 && mkQuestion(t[2], t[3], t[4], q))
@@ -426,9 +501,11 @@ static std::string stepInner(const std::vector<std::string>& t, bool& encoding)
     if (op == "purge" && t.size() == 2)
     {
       waitParked();
+      std::size_t nBefore = g_cache->cache_->size();
       long want = g_tickets.fetch_add(1) + 1;
       for (int i = 0; i < 1200000 && g_done.load() < want; ++i) usleep(25);   // >= 30 s of real time
       if (g_done.load() < want) return "purge-stuck";
+      if (g_cache->cache_->size() < nBefore) g_evictPurge += nBefore - g_cache->cache_->size();
       return "ok" + cacheTail();
     }
     if (op == "stats" && t.size() == 2)
